@@ -553,4 +553,76 @@ def Sys.storeOf (s : Sys) (sh : Nat) : Store :=
   | some p => p.store
   | none => []
 
+/-! ## late messages of finished transactions
+
+  `tx_locks` keeps a transaction's entry (with an empty key vector) after `release_by_handle`
+  (`removeKeyFromTx` above: the vector is filtered, the entry stays; only `release(tx_id)`, which the
+  participant never calls, removes it).  On the code as it is that leftover is inert, because
+  `try_lock` never reads `tx_locks` before deciding.  The VARIANT below is NOT the code: it is the
+  "re-entrant prepare" shortcut that reads the leftover entry as "this transaction already holds its
+  keys" and skips the key-conflict scan for it. -/
+
+/-- `t` is finished on shard `sh`: the participant applied or discarded it earlier and keeps no
+    prepared record of it. -/
+def Sys.finishedOn (s : Sys) (sh t : Nat) : Bool :=
+  (s.applied.contains (sh, t) || s.discarded.contains (sh, t)) &&
+  match s.parts[sh]? with
+  | some p => (findPrepared p.prepared t).isNone
+  | none => true
+
+/-- `tx_locks.contains_key(&tx_id)` -/
+def txKnown (tl : List (Nat × List Nat)) (tx : Nat) : Bool := tl.any (fun e => e.1 == tx)
+
+/-- the key scan without the `existing.tx_id != tx_id` exemption -/
+def firstConflictAny (ls : List KeyLock) (now : Nat) : List Nat → Option Nat
+  | [] => none
+  | k :: ks =>
+    match findLock ls k with
+    | some l => if !l.expired now then some l.tx else firstConflictAny ls now ks
+    | none => firstConflictAny ls now ks
+
+/-- VARIANT (not the code): `try_lock` that skips the conflict scan for every transaction that has
+    an entry in `tx_locks`, i.e. also for one whose locks were all released. -/
+def LockTable.tryLockNoConflictCheckForKnownTx (t : LockTable) (now handle tx : Nat) (keys : List Nat) :
+    Except Nat LockTable :=
+  match (if txKnown t.txLocks tx then none else firstConflictAny t.locks now keys) with
+  | some c => .error c
+  | none =>
+    .ok { t with locks := insertLocks t.locks now tx handle t.defaultTimeout keys,
+                 txLocks := txLocksExtend t.txLocks tx keys }
+
+/-- `TxParticipant::prepare` over the variant lock table. -/
+def Participant.prepareNoConflictCheckForKnownTx (p : Participant) (now handle tx : Nat) (ops : List Op) :
+    Participant × Vote :=
+  let keys := ops.map Op.key
+  match p.locks.tryLockNoConflictCheckForKnownTx now handle tx keys with
+  | .error c => (p, .conflict c)
+  | .ok lt =>
+    let undo := keys.map (capture p.store)
+    ({ p with locks := lt,
+              prepared := ⟨tx, handle, ops, now, undo⟩ :: removePrepared p.prepared tx },
+     .yes handle keys)
+
+/-- one event of the system whose participants prepare through the variant; every other event is
+    the unchanged `Sys.step`. -/
+def Sys.stepNoConflictCheckForKnownTx (s : Sys) (e : Ev) : Sys :=
+  match e with
+  | .deliver i =>
+    match s.msgs[i]? with
+    | some (.prepare tx sh ops) =>
+      match s.parts[sh]? with
+      | none => s
+      | some p =>
+        let r := p.prepareNoConflictCheckForKnownTx s.now s.nextHandle tx ops
+        { s with parts := s.parts.set sh r.1, msgs := s.msgs ++ [Msg.vote tx sh r.2],
+                 nextHandle := if r.2.isYes then s.nextHandle + 1 else s.nextHandle }
+    | _ => s.step e
+  | _ => s.step e
+
+def Sys.runNoConflictCheckForKnownTx (s : Sys) (es : List Ev) : Sys :=
+  es.foldl Sys.stepNoConflictCheckForKnownTx s
+
+/-- the lock holder of a key (`LockManager::lock_holder` on a table without expired entries) -/
+def Participant.holder (p : Participant) (k : Nat) : Option Nat := (findLock p.locks.locks k).map (·.tx)
+
 end Neumann.TwoPC
